@@ -210,7 +210,8 @@ def hexs(b):
 
 
 def run_impl(binpath, ops, extra_env=None):
-    """run the Rust harness over ops; a crash (signal) is located, reported as `fault`, and the run resumes"""
+    """run the Rust harness over ops; a crash (signal) is located and reported as `fault`, a non-terminating op is
+    located by a watchdog and reported as `hang`; the run resumes after the offending op"""
     results = []
     i = 0
     env = dict(ENV)
@@ -218,29 +219,73 @@ def run_impl(binpath, ops, extra_env=None):
         env.update(extra_env)
     while i < len(ops):
         chunk = ops[i:]
-        p = subprocess.run([binpath], input=("\n".join(chunk) + "\n").encode(), stdout=subprocess.PIPE,
-                           stderr=subprocess.PIPE, env=env)
-        lines = p.stdout.decode("utf-8", "replace").split("\n")
-        if lines and lines[-1] == "":
-            lines.pop()
-        if p.returncode == 0 and len(lines) == len(chunk):
-            results.extend(lines)
-            break
-        # crashed: rerun flushing each line to find the op
-        env2 = dict(env)
-        env2["LEXVERIF_FLUSH"] = "1"
-        p = subprocess.run([binpath], input=("\n".join(chunk) + "\n").encode(), stdout=subprocess.PIPE,
-                           stderr=subprocess.PIPE, env=env2)
-        lines = p.stdout.decode("utf-8", "replace").split("\n")
-        if lines and lines[-1] == "":
-            lines.pop()
-        if len(lines) >= len(chunk):
+        budget = 120 + len(chunk) * 0.002
+        try:
+            p = subprocess.run([binpath], input=("\n".join(chunk) + "\n").encode(), stdout=subprocess.PIPE,
+                               stderr=subprocess.PIPE, env=env, timeout=budget)
+            lines = p.stdout.decode("utf-8", "replace").split("\n")
+            if lines and lines[-1] == "":
+                lines.pop()
+            if p.returncode == 0 and len(lines) == len(chunk):
+                results.extend(lines)
+                break
+        except subprocess.TimeoutExpired:
+            pass
+        # crashed or hung: rerun flushing each line, with a per-op watchdog, to find the op
+        lines, status = _run_watchdog(binpath, chunk, env)
+        if status == "done" and len(lines) >= len(chunk):
             results.extend(lines[:len(chunk)])
             break
         results.extend(lines)
-        results.append("fault rc=%d" % p.returncode)
+        results.append("hang" if status == "hang" else "fault rc=%s" % status)
         i += len(lines) + 1
     return results
+
+
+def _run_watchdog(binpath, chunk, env, stall=20.0):
+    """line-flushed run; returns (result lines read so far, "done" | "hang" | returncode)"""
+    import select
+    import threading
+    env2 = dict(env)
+    env2["LEXVERIF_FLUSH"] = "1"
+    p = subprocess.Popen([binpath], stdin=subprocess.PIPE, stdout=subprocess.PIPE, stderr=subprocess.DEVNULL, env=env2)
+
+    def feed():
+        try:
+            p.stdin.write(("\n".join(chunk) + "\n").encode())
+            p.stdin.close()
+        except (BrokenPipeError, OSError):
+            pass
+    th = threading.Thread(target=feed, daemon=True)
+    th.start()
+    lines = []
+    buf = b""
+    fd = p.stdout.fileno()
+    status = None
+    while True:
+        r, _, _ = select.select([fd], [], [], stall)
+        if not r:
+            status = "hang"
+            p.kill()
+            break
+        data = os.read(fd, 1 << 16)
+        if not data:
+            p.wait()
+            status = "done" if p.returncode == 0 else p.returncode
+            break
+        buf += data
+        while b"\n" in buf:
+            l, buf = buf.split(b"\n", 1)
+            lines.append(l.decode("utf-8", "replace"))
+        if len(lines) >= len(chunk):
+            p.wait()
+            status = "done" if p.returncode == 0 else p.returncode
+            break
+    try:
+        p.kill()
+    except OSError:
+        pass
+    return lines, status
 
 
 def run_driver(fs, ops):
